@@ -48,7 +48,7 @@ theorem bySharedChroms_eq_general (table other : Table) (ke : Bool) :
 theorem idxSelect_nil (qs qe : Option Int) (inner : Bool) : idxSelect [] qs qe inner = [] := by
   simp [idxSelect]
 
-theorem selectRange_nil (qs qe : Option Int) (mode : Mode) : selectRange [] qs qe mode = [] := by
+theorem selectRange_nil_q (qs qe : Option Int) (mode : Mode) : selectRange [] qs qe mode = [] := by
   unfold selectRange
   rw [idxSelect_nil]
   split <;> simp [trimRows]
@@ -132,13 +132,13 @@ theorem iterSlices_drop (table other : Table) (mode : Mode) :
 
 /-- a well-formed table of several chromosomes: within each chromosome sorted by start (the chromosomes may come
     in any order, even interleaved), non-negative coordinates, positive length -/
-def WFGenome (t : Table) : Prop :=
+def WFGenomeQ (t : Table) : Prop :=
   t.Pairwise (fun a b => a.chrom = b.chrom → a.s ≤ b.s) ∧ ∀ r ∈ t, 0 ≤ r.s ∧ r.s < r.e
 
-instance (t : Table) : Decidable (WFGenome t) := by unfold WFGenome; infer_instance
+instance (t : Table) : Decidable (WFGenomeQ t) := by unfold WFGenomeQ; infer_instance
 
 /-- … then every chromosome's rows form a well-formed table -/
-theorem WFGenome.chrom {t : Table} (h : WFGenome t) (c : String) :
+theorem WFGenomeQ.chrom {t : Table} (h : WFGenomeQ t) (c : String) :
     WFTable (t.filter (fun r => r.chrom == c)) := by
   constructor
   · apply List.Pairwise.imp_of_mem _ (h.1.filter _)
@@ -150,7 +150,7 @@ theorem WFGenome.chrom {t : Table} (h : WFGenome t) (c : String) :
   · intro r hr
     exact h.2 r (List.mem_filter.mp hr).1
 
-theorem hitsOf_exact (source : Table) (h : WFGenome source) (inner : Bool) (q : Row) (hq : 0 ≤ q.s) :
+theorem hitsOf_exact (source : Table) (h : WFGenomeQ source) (inner : Bool) (q : Row) (hq : 0 ≤ q.s) :
     hitsOf source inner q =
       source.filter (fun r => r.chrom == q.chrom && selFilter (some q.s) (some q.e) inner r) := by
   unfold hitsOf
@@ -205,7 +205,7 @@ theorem byRangesDf_per_query (table other : Table) (mode : Mode) (ke : Bool) :
   rw [hR]
   by_cases hsrc : (table.filter (fun r => r.chrom == c)).isEmpty = true
   · have hnil : table.filter (fun r => r.chrom == c) = [] := by simpa using hsrc
-    cases ke <;> simp [hnil, selectRange_nil, List.flatMap_map]
+    cases ke <;> simp [hnil, selectRange_nil_q, List.flatMap_map]
   · simp [hsrc, List.flatMap_map]
 
 /-- `intersection(other, mode)` for ANY two tables: the concatenation, over the query rows grouped by chromosome in
@@ -350,7 +350,7 @@ theorem queriesInOrder_single (dest : Table) (c : String) (h : ∀ r ∈ dest, r
     simp [rm_filter_all dest c h]
 
 /-- `intersection` in the words of the property, for well-formed tables of any number of chromosomes -/
-theorem intersection_exact (table other : Table) (mode : Mode) (h : WFGenome table)
+theorem intersection_exact (table other : Table) (mode : Mode) (h : WFGenomeQ table)
     (hq : ∀ b ∈ other, 0 ≤ b.s) :
     intersection table other mode =
       (queriesInOrder other).flatMap (fun b =>
@@ -365,7 +365,7 @@ theorem intersection_exact (table other : Table) (mode : Mode) (h : WFGenome tab
 
 /-- the slice of a query is what the driver's oracle `selectSpec` (the property's wording, evaluated on the REAL
     output) computes -/
-theorem hitsOf_eq_selectSpec (source : Table) (h : WFGenome source) (q : Row) (hq : 0 ≤ q.s) :
+theorem hitsOf_eq_selectSpec (source : Table) (h : WFGenomeQ source) (q : Row) (hq : 0 ≤ q.s) :
     hitsOf source false q = selectSpec source q.chrom q.s q.e .outer := by
   rw [hitsOf_exact source h false q hq]
   unfold selectSpec rowsOf
@@ -375,7 +375,7 @@ theorem hitsOf_eq_selectSpec (source : Table) (h : WFGenome source) (q : Row) (h
   simp [selFilter, Bool.and_comm]
 
 theorem intoRanges_spec (r0 : Row) (rest dest : Table) (col : Row → Val) (d : Val) (s : Summary)
-    (h : WFGenome (r0 :: rest)) (hq : ∀ q ∈ dest, 0 ≤ q.s) :
+    (h : WFGenomeQ (r0 :: rest)) (hq : ∀ q ∈ dest, 0 ≤ q.s) :
     intoRanges (r0 :: rest) dest col d s =
       (queriesInOrder dest).map (fun q =>
         seriesToValue d (pickSummary s (col r0)) ((selectSpec (r0 :: rest) q.chrom q.s q.e .outer).map col)) := by
@@ -390,7 +390,7 @@ theorem rangeSpec_nil (qs qe : Option Int) (mode : Mode) : rangeSpec [] qs qe mo
   unfold rangeSpec
   split <;> simp [trimRows]
 
-theorem byRanges_exact (table other : Table) (mode : Mode) (ke : Bool) (h : WFGenome table)
+theorem byRanges_exact (table other : Table) (mode : Mode) (ke : Bool) (h : WFGenomeQ table)
     (hq : ∀ b ∈ other, 0 ≤ b.s) :
     byRanges table other mode ke =
       ((queriesInOrder other).map (fun b =>
@@ -417,7 +417,7 @@ theorem byRanges_exact (table other : Table) (mode : Mode) (ke : Bool) (h : WFGe
   rw [hR]
   by_cases hsrc : (table.filter (fun r => r.chrom == c)).isEmpty = true
   · have hnil : table.filter (fun r => r.chrom == c) = [] := by simpa using hsrc
-    cases ke <;> simp [hnil, selectRange_nil, List.filter_map, Function.comp_def]
+    cases ke <;> simp [hnil, selectRange_nil_q, List.filter_map, Function.comp_def]
   · simp [hsrc]
 
 end CnvVerif
